@@ -36,6 +36,16 @@ def make_scratch(name, edits):
     for sub in ('include', 'development', 'tools'):
         shutil.copytree(os.path.join(REPO, sub), os.path.join(d, sub))
     for ed in edits:
+        if ed.get('patch'):
+            p = subprocess.run(['git', 'apply', '--unsafe-paths', '--directory=' + d, os.path.join(HERE, 'patches', ed['patch'])],
+                               stdout=subprocess.PIPE, stderr=subprocess.STDOUT, universal_newlines=True, cwd='/')
+            if p.returncode != 0:
+                # not a git work tree: fall back to patch(1)
+                p = subprocess.run('patch -p1 -s -d %s < %s' % (d, os.path.join(HERE, 'patches', ed['patch'])), shell=True,
+                                   stdout=subprocess.PIPE, stderr=subprocess.STDOUT, universal_newlines=True)
+                if p.returncode != 0:
+                    raise SystemExit('%s: patch does not apply: %s' % (name, p.stdout[-200:]))
+            continue
         path = os.path.join(d, ed.get('file', 'include/ffsm2/machine.hpp'))
         with open(path, encoding='utf-8') as f:
             s = f.read()
@@ -62,7 +72,7 @@ def compiles(d):
 
 def run_one(entry, kind):
     name = entry['name']
-    edits = entry.get('edits') or [{'old': entry['old'], 'new': entry['new'], 'count': entry.get('count', 1),
+    edits = entry.get('edits') or ([{'patch': entry['patch']}] if entry.get('patch') else None) or [{'old': entry['old'], 'new': entry['new'], 'count': entry.get('count', 1),
                                     'file': entry.get('file', 'include/ffsm2/machine.hpp')}]
     try:
         d = make_scratch(name, edits)
